@@ -1,7 +1,21 @@
 #!/bin/bash
-# extraction + ocamlopt of the model runner
+# build_runner.sh [cXX ...] — extraction + ocamlopt of the model runner of each property.
+# ocaml/bin/runner_cXX = extracted model_cXX.ml + helpers.ml + h_cXX.ml + mainloop.ml
 set -e
-cd "$(dirname "$0")/ocaml"
-coqc -Q ../coq/theories IronCalc ../coq/theories/Extract/Extract.v > extract.log 2>&1 || { cat extract.log; exit 1; }
-rm -f ../coq/theories/Extract/Extract.vo ../coq/theories/Extract/Extract.glob ../coq/theories/Extract/.Extract.aux ../coq/theories/Extract/Extract.vok ../coq/theories/Extract/Extract.vos
-ocamlfind ocamlopt -O2 -w -a model.mli model.ml runner.ml -o runner 2>/dev/null || ocamlfind ocamlopt -w -a model.mli model.ml runner.ml -o runner
+cd "$(dirname "$0")"
+mkdir -p ocaml/gen ocaml/bin
+props="$@"
+if [ -z "$props" ]; then
+  props=$(ls coq/theories/Extract/Extract_c*.v | sed 's#.*Extract_\(c[0-9]*\)\.v#\1#')
+fi
+rc=0
+for p in $props; do
+  (
+    cd ocaml/gen
+    coqc -Q ../../coq/theories IronCalc ../../coq/theories/Extract/Extract_$p.v > extract_$p.log 2>&1 || { cat extract_$p.log; exit 1; }
+    rm -f ../../coq/theories/Extract/Extract_$p.vo ../../coq/theories/Extract/Extract_$p.glob ../../coq/theories/Extract/.Extract_$p.aux ../../coq/theories/Extract/Extract_$p.vok ../../coq/theories/Extract/Extract_$p.vos
+    { echo "open Model_$p"; cat ../helpers.ml ../h_$p.ml ../mainloop.ml; } > run_$p.ml
+    ocamlfind ocamlopt -O3 -w -a model_$p.mli model_$p.ml run_$p.ml -o ../bin/runner_$p 2> ocamlopt_$p.log || { cat ocamlopt_$p.log; exit 1; }
+  ) || rc=1
+done
+exit $rc
